@@ -47,7 +47,12 @@ def cases(draw, max_n: int, big_r: bool):
         rs.append(100)
         if n <= 4:
             rs.append(1000)
-    return {"game": game, "K": k, "rs": rs}
+    prev = None
+    if draw(st.integers(0, 2)) == 0:
+        # the same game objects served ANOTHER game before (as one env object serves successive hidden games)
+        pg = draw(sam_games(n, n))
+        prev = {"game": pg, "K": draw(knowledge_sets(n)) if n <= 6 else seeded_knowledge(n, draw(st.integers(0, 2**31)))}
+    return {"game": game, "K": k, "rs": rs, "previous": prev}
 
 
 def _materialise(game: dict) -> dict:
@@ -83,10 +88,14 @@ def check_case(case: dict) -> Result:
     tighter = False
     for r in case["rs"]:
         g = repo.new_game(n, f"sam_apx_{r}")
+        if case.get("previous"):
+            pv = _materialise(case["previous"]["game"])["v"]
+            repo.set_knowledge(g, pv, set(case["previous"]["K"]))
+            g.compute_bounds()
         repo.set_knowledge(g, v, K)
         g.compute_bounds()
         known, lo, up = repo.table(g)
-        w = f"r={r}"
+        w = f"r={r}" + (" (object reused after another game)" if case.get("previous") else "")
         for s in range(1 << n):
             if known[s] != (s in K):
                 res.fail(f"known-flag :: {w}: coalition {s}")
@@ -129,6 +138,8 @@ def check_case(case: dict) -> Result:
     proper = len(K) > len(minimal_masks(n)) and len(K) < (1 << n)
     res.nontrivial = bool(proper and tighter)
     res.label(f"n={n}", "how=" + game.get("how", "?"))
+    if case.get("previous"):
+        res.label("object-reused")
     if tighter:
         res.label("sam-tighter-than-sa")
     return res
